@@ -68,6 +68,8 @@ def to_events(trace):
     after_cb = {}
     cur_w = "E"
     n_ready = 0
+    ready_of = {}          # thread -> index of its latest Ready()/await_ready() observation (markers of one thread may
+    taken_by = {}          # be separated from its operation by other threads' operations); thread -> value it took out
 
     def hid(name):
         if name not in handles:
@@ -105,7 +107,7 @@ def to_events(trace):
             elif head == "ready":
                 ctx[thr] = dict(k="ready", h=f[1])
             elif head.startswith("ready="):
-                out["readys"].append((n_ready - 1, int(head[6:])))
+                out["readys"].append((ready_of.get(thr, n_ready - 1), int(head[6:])))
             elif head in ("touch", "touchmv"):
                 ctx[thr] = dict(k="touch", h=f[1], mv=(head == "touchmv"), stage=0)
             elif head in ("get", "getmv", "wait"):
@@ -124,9 +126,9 @@ def to_events(trace):
                     out["gots"].append(code)
                     ctx.pop(thr, None)
                 elif cx and (cx["k"] in ("touch", "wait")):
-                    if not out["gots"] or out["gots"][-1] != code:
+                    if taken_by.get(thr) != code:
                         raise MapError("Get/Touch&& returned %d but the value taken out of the state was %s" %
-                                       (code, out["gots"][-1:] or None))
+                                       (code, taken_by.get(thr)))
                     ctx.pop(thr, None)
                 else:
                     raise MapError("`got` outside a Get/Touch")
@@ -147,6 +149,7 @@ def to_events(trace):
                 elif cx and cx["k"] in ("touch", "wait") and cx.get("stage") == "rc":
                     evs.append("EGot %d" % hid(cx["h"]))
                     out["gots"].append(code)
+                    taken_by[thr] = code
                 elif cx and cx["k"] == "attach" and cx.get("stage") == "connr":
                     evs.append("ECbInl %d" % hid(cx["h"]))
                     out["iruns"].append(code)
@@ -197,6 +200,7 @@ def to_events(trace):
                     raise MapError("load of the word outside any operation by " + thr)
                 elif cx["k"] == "ready":
                     evs.append("EReady %d %s" % (hid(cx["h"]), WOBS[v]))
+                    ready_of[thr] = n_ready
                     n_ready += 1
                     ctx.pop(thr, None)
                 elif cx["k"] == "touch" and cx["stage"] == 0:
@@ -211,6 +215,7 @@ def to_events(trace):
                     cx["stage"] = "rc" if v == "R" else "loop"
                 elif cx["k"] == "await" and cx["stage"] == "copied":
                     evs.append("EAwaitL %d %s" % (hid(cx["h"]), WOBS[v]))
+                    ready_of[thr] = n_ready
                     n_ready += 1
                     cx["stage"] = 0
                 elif cx["k"] in ("attach", "await"):
